@@ -661,6 +661,8 @@ def run(rep):
     if crashes:
         rep.crash = crashes[0]
     from pgv.replayers import c03 as R03
+    for res in R03.native_selection_cases():
+        rep.add_bounded(f"{P}/bounded.{res['name']}", res['ok'], res['detail'], replay={'kind': 'c03.native_selection', 'name': res['name']})
     for res in R03.model_limit_cases():
         rep.add_bounded(f"{P}/bounded.{res['name']}", res['ok'], res['detail'], replay={'kind': 'c03.model_limits', 'name': res['name']})
     for res in R03.stored_format_cases():
